@@ -372,6 +372,17 @@ def run_seq(ctx, cfg, ops, seed):
                 if okshape:
                     for i, p in enumerate(pts):
                         record(p, "batch", r[i], "B.eval.batch", SITE_CALL)
+                    if rng.random() < 0.5:
+                        # the caller asks once more and works IN PLACE on the array it got (it is the caller's array): later evaluations of these points
+                        # must still give the function values (a cache that keeps views of a returned array would now hold the caller's numbers)
+                        try:
+                            with quiet():
+                                scratch = f(arg)
+                            if isinstance(scratch, np.ndarray) and scratch is not r:
+                                scratch *= 2.0
+                                scratch += 1.0
+                        except Exception:  # noqa  (a failure of this extra request is reported by the next regular operation)
+                            pass
             else:
                 counter_valid = False
         elif op == "E":
